@@ -2,6 +2,7 @@ package sim
 
 import (
 	"berty.tech/go-orbit-db/accesscontroller"
+	"berty.tech/go-orbit-db/cache/cacheleveldown"
 	"context"
 	"fmt"
 	"sort"
@@ -543,4 +544,110 @@ func shortIDs(ids []string) []string {
 		out[i] = s
 	}
 	return out
+}
+
+func init() {
+	Register(&Scenario{Prop: "C14", Name: "cache-manager-race", Run: scenC14CacheRace, Weight: 1,
+		Rule: "one instance on the repository's own cache manager (cacheleveldown, leveldb in memory, inside the bubble: its code takes part in the seeded interleavings); for each of 1-3 names an Open of the database's address and the Create of the database run at the same time (the Open may start first and find nothing yet); oracle: Create succeeds; afterwards a local-only Open of the address succeeds and a second Create without overwrite is refused (the database is locally known); every run counts as non-trivial (the two calls of a pair start 0-3 kernel steps apart)"})
+}
+
+// WithRealMemoryCache makes the instance use the repository's cacheleveldown manager with
+// in-memory leveldb stores instead of the simulated datastore.
+func WithRealMemoryCache() PeerOpt {
+	return func(p *Peer, o *orbitdb.NewOrbitDBOptions) {
+		dir := cacheleveldown.InMemoryDirectory
+		o.Directory = &dir
+		o.Cache = cacheleveldown.New(nil)
+	}
+}
+
+func scenC14CacheRace(k *K) {
+	z, err := k.StartPeer(k.W.AddNode(), WithRealMemoryCache())
+	if err != nil {
+		panic(abortPanic{err.Error()})
+	}
+	overlapped := 0
+	no := false
+	for i, m := 0, k.C.Range(1, 3); i < m; i++ {
+		name := fmt.Sprintf("race-%d", i)
+		typ := []string{"keyvalue", "eventlog", "docstore"}[k.C.Intn(3)]
+		aop := k.Do(0, "determine-address", 100, func() (interface{}, error) {
+			ctx, cancel := OpCtx(time.Minute)
+			defer cancel()
+			return z.DB.DetermineAddress(ctx, name, typ, nil)
+		})
+		if !aop.Done || aop.Err != nil {
+			panic(abortPanic{fmt.Sprint(aop.Err)})
+		}
+		addr := aop.Val.(address.Address).String()
+		start := func(which int) *Op {
+			if which == 0 {
+				return k.Go(0, "open "+name, func() (interface{}, error) {
+					ctx, cancel := OpCtx(30 * time.Second)
+					defer cancel()
+					return z.DB.Open(ctx, addr, &orbitdb.CreateDBOptions{Replicate: &no})
+				})
+			}
+			return k.Go(0, "create "+name, func() (interface{}, error) {
+				ctx, cancel := OpCtx(time.Minute)
+				defer cancel()
+				return z.DB.Create(ctx, name, typ, &orbitdb.CreateDBOptions{Replicate: &no})
+			})
+		}
+		first := k.C.Intn(2)
+		ops := [2]*Op{}
+		ops[first] = start(first)
+		for j, g := 0, k.C.Intn(4); j < g; j++ {
+			k.Step()
+		}
+		ops[1-first] = start(1 - first)
+		k.Wait()
+		for j := 0; j < 200 && !k.IsDone(ops[1]); j++ {
+			k.Step()
+		}
+		if !k.IsDone(ops[1]) {
+			k.Failf("C14/create-hang", "Create of %q, started together with an Open of its address, did not return", name)
+		}
+		if !k.IsDone(ops[0]) {
+			overlapped++
+		}
+		// the Open may fail (nothing to open yet when it looked) or succeed; it has to return
+		for j := 0; j < 200 && !k.IsDone(ops[0]); j++ {
+			k.Step()
+		}
+		if !k.IsDone(ops[0]) {
+			k.Tick(35 * time.Second)
+		}
+		if !k.IsDone(ops[0]) {
+			k.Failf("C14/open-hang", "Open of the address of %q, started together with its Create, did not return", name)
+		}
+		if ops[1].Err != nil {
+			if ops[0].Err == nil {
+				// the Open got there first and created nothing: Create over an open store of the
+				// same address is refused, which is fine
+				continue
+			}
+			k.Failf("C14/create-error", "Create of %q failed: %v (the concurrent Open: %v)", name, ops[1].Err, ops[0].Err)
+		}
+		yes := true
+		lop := k.Do(0, "open-local-only "+name, 100, func() (interface{}, error) {
+			ctx, cancel := OpCtx(time.Minute)
+			defer cancel()
+			return z.DB.Open(ctx, addr, &orbitdb.CreateDBOptions{Replicate: &no, LocalOnly: &yes})
+		})
+		if !lop.Done || lop.Err != nil {
+			k.Failf("C14/localonly-known-refused", "%q was created on this instance (an Open of its address ran at the same time: %v), but a local-only Open says: done=%v err=%v", name, ops[0].Err, lop.Done, lop.Err)
+		}
+		cop := k.Do(0, "create-again "+name, 100, func() (interface{}, error) {
+			ctx, cancel := OpCtx(time.Minute)
+			defer cancel()
+			return z.DB.Create(ctx, name, typ, &orbitdb.CreateDBOptions{Replicate: &no})
+		})
+		if cop.Done && cop.Err == nil {
+			k.Failf("C14/second-create-accepted", "%q exists locally, a second Create without overwrite was accepted", name)
+		}
+	}
+	k.Notes["overlapped"] = overlapped
+	k.Notes["nontrivial"] = true
+	k.StopPeer(z)
 }
